@@ -13,7 +13,8 @@ N_CASES = {"quick": 300, "thorough": 5000}
 RULE = ("generated file sets (1-3 ranks; metadata/flow/instant/'Trace' entries interleaved; entries without cat; string stream args; shuffled order; "
         "epoch offsets 0, 1e6, 1.7e15; .json and .json.gz), both parse-only and full load, every row and every primary column compared; one case in five has "
         "fractional timestamps (k/1000 and dyadic fractions) and is compared against the Q model of the rounding with the harness supplying the exact "
-        "rational of each double and of each double sum; non-trivial = the file set has at least one dropped entry and a non-zero minimum timestamp, or "
+        "rational of each double and of each double sum (one in four of those has integer start times and quarter-microsecond durations instead: nothing is "
+        "rounded, each row's duration, end, process and thread id -- numbers or names -- are compared with the file's); non-trivial = the file set has at least one dropped entry and a non-zero minimum timestamp, or "
         "is fractional; distinct = hash of the file set")
 ASSUMPTIONS = ["JSON/gzip decoding is not modelled (files are written with the same json/gzip libraries the loader reads them with)",
                "only the JSON parser back-end exists in this sandbox (ijson absent)",
